@@ -53,13 +53,26 @@ def r1_harness_coverage(ctx):
         ctx.check(len(consumers) == 1, 'exec-consumed:%s' % f.key, 'the outcome of every harness execution is inspected (catch/pass)', s.where())
 
 
+_PANICKED = 'Some'
+
+
 def _payload_field(P):
-    """role: the Harness field that holds the caught unwind payload (Option<Box<dyn Any + Send>>)"""
-    a = P.adts.get(H)
-    for v in (a or {}).get('variants', []):
-        for fd in v['fields']:
-            if fd['ty'].startswith('std::option::Option<std::boxed::Box<(dyn std::any::Any'):
-                return fd['n']
+    """role: the field that holds the outcome of the harnessed callback — in the Harness itself or in a private companion type of the
+    same module (`Harness::exec` may return one): `Option<Box<dyn Any + Send>>` (Some = panicked) or `Result<(), Box<dyn Any + Send>>`
+    (Err = panicked).  Sets _PANICKED to the variant that means "the callback panicked"."""
+    global _PANICKED
+    mod = H.rsplit('::', 1)[0] + '::'
+    cands = [H] + sorted(k for k in P.adts if k.startswith(mod) and k != H)
+    for k in cands:
+        a = P.adts.get(k)
+        for v in (a or {}).get('variants', []):
+            for fd in v['fields']:
+                if fd['ty'].startswith('std::option::Option<std::boxed::Box<(dyn std::any::Any'):
+                    _PANICKED = 'Some'
+                    return fd['n']
+                if fd['ty'].startswith('std::result::Result<(), std::boxed::Box<(dyn std::any::Any'):
+                    _PANICKED = 'Err'
+                    return fd['n']
     return None
 
 
@@ -87,7 +100,7 @@ def r2_harness(ctx):
                 # functional form: exec returns a fresh Harness { <payload field>: catch_unwind(..).err(), .. }
                 for _, rt in ret_trees(fe):
                     for x in walk(rt):
-                        if x[0] == 'agg' and str(x[1]).replace('adt:', '').startswith(H + '::') and len(x) > 3 and PF in x[3]:
+                        if x[0] == 'agg' and str(x[1]).replace('adt:', '').startswith(H.rsplit('::', 1)[0] + '::') and len(x) > 3 and PF in x[3]:
                             v = x[2][list(x[3]).index(PF)]
                             if any(y[0] == 'call' and y[1] == 'std::panic::catch_unwind' for y in walk(v)):
                                 okw = True
@@ -107,7 +120,7 @@ def r2_harness(ctx):
         ret = path_ret(fc, path)
         is_err = ret is not None and ret[0] == 'agg' and ret[1].endswith('Result::Err')
         n += 1
-        if unw == 'Some':
+        if unw == _PANICKED:
             ctx.check(len(deact) == 1, 'unwind-deactivates', 'a panicking module is deactivated', fc.where_path(path))
             catch = [a for a in atoms if a[0] == 'bool' and a[1][0] == 'field' and a[1][2] == 'on_panic_catch']
             live = bool(catch) and any(x[0] == 'call' and x[1].endswith('Cell::get') and any(y[0] == 'field' and y[2] == 'stereotyp' and any(z[0] == 'field' and z[2] == 'ctx' for z in walk(y)) for y in walk(x))
@@ -135,7 +148,16 @@ def r2_harness(ctx):
             unw = next((a[2] for a in atoms if a[0] == 'is' and a[1][0] == 'field' and a[1][2] == PF), None)
             ret = path_ret(fp, path)
             is_err = ret is not None and ret[0] == 'agg' and ret[1].endswith('Result::Err')
-            ctx.check(is_err == (unw == 'Some'), 'pass-table', 'Harness::pass reports an error iff the callback panicked', fp.where_path(path))
+            ok_pass = is_err == (unw == _PANICKED)
+            rp = peel(ret) if ret is not None else None
+            if not ok_pass and unw is None and rp is not None and rp[0] == 'call' and rp[1] == 'std::result::Result::map_err' and len(rp[2]) == 2 \
+                    and peel(rp[2][0])[0] == 'field' and peel(rp[2][0])[2] == PF and _PANICKED == 'Err':
+                # `self.result.map_err(|payload| PanicError { .. })`: Err exactly when the stored outcome is Err
+                cl = peel(rp[2][1])
+                g = P.fns.get(cl[1][len('closure:'):]) if cl[0] == 'agg' and str(cl[1]).startswith('closure:') else None
+                rts = [peel(t2) for _, t2 in ret_trees(g)] if g else []
+                ok_pass = bool(rts) and all(t2[0] == 'agg' and str(t2[1]).endswith('PanicError::PanicError') and any(y[0] == 'arg' and y[1] == 2 for y in walk(t2)) for t2 in rts)
+            ctx.check(ok_pass, 'pass-table', 'Harness::pass reports an error iff the callback panicked', fp.where_path(path))
 
 
 ERR_TYPES = ('PanicError', 'RuntimeError', 'JoinError')
@@ -347,13 +369,13 @@ def r6_consumers_and_teardown(ctx):
     ctx.set_rule('C13.R4')
     g = P.fns.get(NR + 'ctx::buf_process')
     if g is not None:
-        dr = [s for s in g.calls() if s.name == 'std::vec::Vec::drain']
+        dr = [s for s in g.calls() if s.name in ('std::vec::Vec::drain', 'std::collections::VecDeque::drain')]
         ok = bool(dr) and g.postdominates(dr[0].b, 0)
         if not ok:
             # equivalent: the buffer is moved out (mem::take) and every element handed to the runtime, on every path
             for w in per_item_calls(P, g, 'des::runtime::Runtime::add_event'):
                 src = w.it
-                if src is not None and src[0] == 'call' and src[1] in ('std::mem::take', 'std::vec::Vec::drain') and w.exhaustive and g.postdominates(w.anchor, 0):
+                if src is not None and src[0] == 'call' and src[1] in ('std::mem::take', 'std::vec::Vec::drain', 'std::collections::VecDeque::drain') and w.exhaustive and g.postdominates(w.anchor, 0):
                     ok = True
         ctx.check(ok, 'flush-unconditional', 'buf_process drains the global event buffer on every path — also for a module that has just been deactivated by a panic', g.where())
 
